@@ -849,12 +849,22 @@ def judge(m, prev, cmd, res, hist, taint=(), strict_unknown=False):
                   'get_option() disagrees with the model: ' + ', '.join('%s expected %r got %r' % (k, want.get(k), got.get(k)) for k in bad)))
     # the set of options listed by introspection / meson configure ("a removed one vanishes", "a new option ...")
     wi = expected_intro(m2)
+
+    def _listed(gotd):
+        return {k: v for k, v in gotd.items()
+                if k in wi or ((':' not in k or k.startswith('sub:')) and k.split(':')[-1] not in GLOBAL_BUILTINS)}
+    # an edited option file first seen by a `meson configure -Dk=v` whose every v is the value k already has
+    novalue = (cmd['kind'] == 'editconf' and all(':' not in k and m['top'].get(k) == v for k, v in cmd['D'])
+               and set(_listed(res['pobs']['configure'])) == set(wi))
     for label, gotd in (('intro', res['pobs']['intro']), ('configure', res['pobs']['configure'])):
-        gd = {k: v for k, v in gotd.items()
-              if k in wi or ((':' not in k or k.startswith('sub:')) and k.split(':')[-1] not in GLOBAL_BUILTINS)}
+        gd = _listed(gotd)
         extra = sorted(set(gd) - set(wi))
         missing = sorted(set(wi) - set(gd))
-        if extra and not missing and SUB_VARIANTS[m2['subconf']] is None and all(x.startswith('sub:') for x in extra):
+        if novalue and label == 'intro' and (extra or missing):
+            V.append(('C08:edit-seen-by-configure-that-changes-no-value:intro-not-refreshed',
+                      'meson configure re-read the edited option file (its own listing shows %s) but intro-buildoptions.json still '
+                      'lists %s' % (sorted(wi), sorted(gd))))
+        elif extra and not missing and SUB_VARIANTS[m2['subconf']] is None and all(x.startswith('sub:') for x in extra):
             # the subproject has no option file (any more).  Two classes, named by what is listed (names only):
             #  options-stay: options the deleted file used to declare are still there ("a removed one vanishes")
             #  top-level-options-listed-for-subproject: options that only the TOP-LEVEL option file declares show up as sub:k
